@@ -168,6 +168,31 @@ pub fn case_fn(_sub: &str, case: &Case, stats: &mut Stats) -> Result<(), String>
             Err(format!("error call '{}' answered {} instead of raising ValueError({:?})", kind, ans, want))
         };
     }
+    if let Some(v) = case.extra.get("large_threshold").and_then(|v| v.as_i64()) {
+        // thresholds at and beyond the u32 range: the call must either be refused (any exception) or
+        // behave like the library with that threshold (values above u32::MAX cannot be represented,
+        // so accepting them silently is only right if nothing is converted)
+        stats.nontrivial(case.key());
+        let which = case.extra.get("which").and_then(|v| v.as_str()).unwrap_or("with_minimum_repetitions").to_string();
+        let tcs = vec!["aaaa".to_string(), "abababab".to_string()];
+        let req = json!({"tcs": tcs, "calls": [["with_conversion_of_repetitions"], [which, v]]});
+        let ans = ask(&req).map_err(|e| if e == "DIED" { format!("the Python interpreter died on {}({})", which, v) } else { e })?;
+        stats.sample(|| json!({"large_threshold": v, "setter": which, "answer": ans}));
+        if ans.get("error_type").is_some() {
+            return Ok(());
+        }
+        let mut c = Cfg::default();
+        c.repetitions = true;
+        let capped = v.clamp(1, u32::MAX as i64) as u32;
+        if which == "with_minimum_repetitions" { c.min_rep = capped } else { c.min_len = capped }
+        let want = build(&tcs, &c).map_err(build_err)?;
+        let got = ans["pattern"].as_str().unwrap_or("");
+        return if got == want {
+            Ok(())
+        } else {
+            Err(format!("{}({}) was accepted and built {:?}; the library with that threshold builds {:?}", which, v, got, want))
+        };
+    }
     let mut cfg = case.cfg.clone();
     cfg.colour = false;
     if cfg.min_rep > 1_000_000 { cfg.min_rep = 1000; }
@@ -182,7 +207,28 @@ pub fn case_fn(_sub: &str, case: &Case, stats: &mut Stats) -> Result<(), String>
     let want = rewrite(&rust);
     let ctor = if case.extra.get("classmethod").and_then(|v| v.as_bool()).unwrap_or(false) { "from_test_cases" } else { "new" };
     let chain = case.extra.get("chain").and_then(|v| v.as_bool()).unwrap_or(true);
-    let req = json!({"tcs": case.tcs, "calls": calls_for(&cfg), "ctor": ctor, "chain": chain});
+    // call history: setters that are called again later with the final value (last call wins):
+    // escaping with the opposite surrogate choice first, thresholds set to another value first, and an
+    // intermediate build() — the final result must still be the library's for the final settings
+    let noise = case.extra.get("noise").and_then(|v| v.as_u64()).unwrap_or(0);
+    let mut calls = vec![];
+    if noise & 1 != 0 && cfg.escape {
+        calls.push(json!(["with_escaping_of_non_ascii_chars", !cfg.surrogates]));
+    }
+    if noise & 2 != 0 && cfg.min_rep != 1 {
+        calls.push(json!(["with_minimum_repetitions", (cfg.min_rep % 5) + 2]));
+    }
+    if noise & 4 != 0 && cfg.min_len != 1 {
+        calls.push(json!(["with_minimum_substring_length", (cfg.min_len % 3) + 2]));
+    }
+    if noise & 8 != 0 {
+        calls.push(json!(["build"]));
+    }
+    calls.extend(calls_for(&cfg));
+    if noise & 16 != 0 {
+        calls.push(json!(["build"]));
+    }
+    let req = json!({"tcs": case.tcs, "calls": calls, "ctor": ctor, "chain": chain});
     let ans = ask(&req).map_err(|e| if e == "DIED" { format!("the Python interpreter died building {:?} [{}]", case.tcs, cfg.tag()) } else { e })?;
     stats.sample(|| json!({"tcs": case.tcs, "cfg": cfg.tag(), "rust": rust, "python": ans["pattern"]}));
     if let Some(e) = ans.get("driver_error") {
@@ -250,6 +296,15 @@ fn run(ctx: &mut Ctx) {
         })
         .collect();
     ctx.fixed("error-calls", &errs, &case_fn);
+    let mut larges = vec![];
+    for which in ["with_minimum_repetitions", "with_minimum_substring_length"] {
+        for v in [2147483647i64, 2147483648, 4294967295, 4294967296, 4294967297, 4294967299, 1 << 40, (1 << 62) + 3] {
+            let mut c = Case::new(vec![], Cfg::default());
+            c.extra = json!({"large_threshold": v, "which": which});
+            larges.push(c);
+        }
+    }
+    ctx.fixed("large-thresholds", &larges, &case_fn);
 
     // every boundary scalar x escape modes x {plain, -r, -x}
     let scalars = ["\u{7f}", "\u{80}", "\u{e9}", "\u{ff}", "\u{100}", "\u{fff}", "\u{1000}", "\u{ffff}", "\u{10000}", "\u{fffff}", "\u{100000}", "\u{10ffff}", "\u{2003}", "\u{a0}"];
@@ -275,7 +330,8 @@ fn run(ctx: &mut Ctx) {
         (case_strategy(&["boundary", "boundary", "boundary", "marks", "space", "cased", "meta", "repeat", "clusters", "digits"], true, W_DEFAULT, max_ops, 4, fix), any::<bool>(), any::<bool>(), proptest::bool::weighted(0.6))
             .prop_map(|(mut c, cm, chain, esc)| {
                 c.cfg.escape = c.cfg.escape || esc;
-                c.extra = json!({"pool": c.extra["pool"], "classmethod": cm, "chain": chain});
+                let noise = (c.key() >> 7) & 31;
+                c.extra = json!({"pool": c.extra["pool"], "classmethod": cm, "chain": chain, "noise": noise});
                 c
             })
             .boxed()
